@@ -289,6 +289,11 @@ def analyse_history(acc, hist, cfg, seed, case, max_resume, rnd):
                 refs[hi], _ = continuation(acc, info["ref"], info["t"], cfg, seed, info["counters"], binds,
                                            (c, cmd) if t == "open" else None, suffix)
             got, answer = continuation(acc, img["dir"], info["t"], cfg, seed, info["counters"], binds, (c, cmd), suffix)
+            if refs[hi]["swept_at_startup"] != got["swept_at_startup"]:
+                # the in-flight command would have refreshed a channel that the restart's immediate sweep finds expired:
+                # an expiry race decided by the timer phase, not by stored state; the statement does not decide it
+                acc.dontcare["c10_expiry_race_at_restart"] += 1
+                continue
             acc.ev["c10_clients_resume"] += 1
             acc.ev["c10_resume_" + t] += 1
             orig_answer = [dict((k, v) for k, v in f.items() if k not in ("id", "orig")) for cc, f in info["wstep"].frames if cc == c]
@@ -311,11 +316,6 @@ def analyse_history(acc, hist, cfg, seed, case, max_resume, rnd):
                     continue
                 viol(acc, icase, "re-sent in-flight command is answered differently after a crash",
                      {"command": cmd, "without_crash": orig_answer, "after_crash": answer, "image": _img(img)}, rp)
-                continue
-            if refs[hi]["swept_at_startup"] != got["swept_at_startup"]:
-                # the in-flight command would have refreshed a channel that the restart's immediate sweep finds expired:
-                # an expiry race decided by the timer phase, not by stored state; the statement does not decide it
-                acc.dontcare["c10_expiry_race_at_restart"] += 1
                 continue
             d = diff.first_difference(refs[hi], got)
             if d:
